@@ -133,17 +133,21 @@ Lemma O_lookup : forall st ty, Once st -> Once (fst (lookup st ty)).
 Proof.
   intros st ty O. unfold lookup. destruct (nth_error (bmap st) ty) as [[n|]|]; cbn [fst]; try exact O.
   - intros s c n Hs Ht. cbn in Hs.
-    change (pend (set_bmap (set_nodes st (nodes st ++ [mkNode ty None [] None false 0])) (upd (bmap st) ty (Some (length (nodes st))))) s n)
-      with (pend (set_nodes st (nodes st ++ [mkNode ty None [] None false 0])) s n).
+    change (pend (set_bmap (set_nodes st (nodes st ++ [mkNode ty None [] None false 0 0])) (upd (bmap st) ty (Some (length (nodes st))))) s n)
+      with (pend (set_nodes st (nodes st ++ [mkNode ty None [] None false 0 0])) s n).
     rewrite pend_nodes_app by reflexivity. exact (O s c n Hs Ht).
   - intros s c n Hs Ht. cbn in Hs.
-    change (pend (set_bmap (set_nodes st (nodes st ++ [mkNode ty None [] None false 0])) (upd (bmap st) ty (Some (length (nodes st))))) s n)
-      with (pend (set_nodes st (nodes st ++ [mkNode ty None [] None false 0])) s n).
+    change (pend (set_bmap (set_nodes st (nodes st ++ [mkNode ty None [] None false 0 0])) (upd (bmap st) ty (Some (length (nodes st))))) s n)
+      with (pend (set_nodes st (nodes st ++ [mkNode ty None [] None false 0 0])) s n).
     rewrite pend_nodes_app by reflexivity. exact (O s c n Hs Ht).
 Qed.
 
-Lemma O_take_blk : forall st t st', Once st -> take_blk st t = Some st' -> Once st'.
-Proof. intros st t st' O E. unfold take_blk in E. destruct (blk st); inversion E; subst. eapply O_same; [exact O| | |]; reflexivity. Qed.
+Lemma O_with_node : forall st ty st1 n, Once st -> with_node st ty = Some (st1, n) -> Once st1.
+Proof.
+  intros st ty st1 n O E. unfold with_node in E. pose proof (O_lookup st ty O) as O1.
+  destruct (lookup st ty) as [sl m]. cbn in O1. destruct (nth_error (nodes sl) m) as [nd|] eqn:En; inversion E; subst.
+  eapply O_node; [exact O1|exact En|reflexivity|reflexivity|reflexivity].
+Qed.
 
 Lemma O_try_drop : forall st ty st', Once st -> try_drop st ty = Some st' -> Once st'.
 Proof.
@@ -316,11 +320,11 @@ Proof.
   destruct (nth_error (emitters st) j) as [m|]; [|discriminate].
   destruct (mnew m) as [|[|[|[|?]]]].
   - inversion E; subst. apply O_emitters, O.
-  - otau_inv E. apply O_emitters. eapply O_take_blk; eassumption.
-  - pose proof (O_lookup st (mty m) O) as O1. destruct (lookup st (mty m)) as [st1 n]. cbn in O1.
-    destruct (nth_error (nodes st1) n) as [nd|] eqn:En; [|discriminate].
+  - destruct (with_node st (mty m)) as [[st1 n]|] eqn:Ew; [|discriminate]. inversion E; subst.
+    apply O_emitters. eapply O_with_node; eassumption.
+  - destruct (nth_error (nodes st) (mnode m)) as [nd|] eqn:En; [|discriminate].
     destruct (holder nd) eqn:Hh; [discriminate|]. inversion E; subst. apply O_emitters.
-    eapply O_node_free; [apply O_blk, O1|exact En|exact Hh|exact Hh].
+    eapply O_node_free; [exact O|exact En|exact Hh|exact Hh].
   - inversion E; subst. apply O_emitters, O.
   - discriminate.
 Qed.
@@ -334,7 +338,7 @@ Proof.
   - destruct (mclosed m); inversion E; subst; apply O_emitters, O.
   - destruct (nth_error (nodes st) (mnode m)) as [nd|] eqn:En; inversion E; subst. apply O_emitters.
     eapply O_node; [exact O|exact En|reflexivity|reflexivity|reflexivity].
-  - otau_inv E. apply O_emitters. eapply O_take_blk; eassumption.
+  - inversion E; subst. apply O_emitters, O.
   - otau_inv E. apply O_emitters. eapply O_try_drop; eassumption.
   - inversion E; subst. apply O_emitters, O.
   - discriminate.
@@ -388,7 +392,7 @@ Proof.
     destruct (nth_error (nodes st) n) as [nd|] eqn:En; [|discriminate].
     destruct (holder nd) eqn:Hh; [discriminate|]. inversion E; subst.
     eapply O_sub; [eapply O_node; [exact O|exact En|reflexivity|reflexivity|reflexivity]|exact Ec|repeat split].
-  - otau_inv E. eapply O_sub; [eapply O_take_blk; eassumption|rewrite (take_blk_subs _ _ _ E); exact Ec|repeat split].
+  - inversion E; subst. eapply O_sub; [exact O|exact Ec|repeat split].
   - destruct (nth_error (snodes c) i) as [n|]; [|discriminate].
     destruct (nth_error (nodes st) n) as [nd|]; [|discriminate].
     otau_inv E. eapply O_sub; [eapply O_try_drop; eassumption|rewrite (try_drop_subs _ _ _ E); exact Ec|repeat split].
@@ -410,7 +414,7 @@ Proof. intros nd n n0 H. unfold retained. destruct (keep nd); [destruct (nlast n
 
 Lemma O_subscribe : forall st s0 c n nd i c2 nd',
   Once st -> Inv2 st -> nth_error (subs st) s0 = Some c -> nth_error (nodes st) n = Some nd -> holder nd = None ->
-  spc c = SApp i ->
+  spc c = SApp i n ->
   holder nd' = Some (TReplay s0 i) -> keep nd' = keep nd -> nlast nd' = nlast nd ->
   rpend c2 = rpend c ++ [true] -> snodes c2 = snodes c ++ [n] -> styps c2 = styps c -> hist c2 = hist c ->
   expd c2 = expd c ++ retained nd n ->
@@ -456,17 +460,16 @@ Proof.
   destruct (nth_error (subs st) s) as [c|] eqn:Ec; [|discriminate].
   destruct (spc c) eqn:Ep.
   - destruct (styps c); inversion E; subst; (eapply O_sub; [exact O|exact Ec|apply hist_same_spc]).
-  - otau_inv E. eapply O_sub; [eapply O_take_blk; eassumption|rewrite (take_blk_subs _ _ _ E); exact Ec|apply hist_same_spc].
+  - destruct (styps c) as [tys|] eqn:Et; [|discriminate]. destruct (nth_error tys i) as [ty|]; [|discriminate].
+    destruct (with_node st ty) as [[st1 n]|] eqn:Ew; [|discriminate]. inversion E; subst.
+    eapply O_sub; [eapply O_with_node; eassumption|rewrite (with_node_subs _ _ _ _ Ew); exact Ec|apply hist_same_spc].
   - destruct (styps c) as [tys|] eqn:Et; [|discriminate].
-    destruct (nth_error tys i) as [ty|]; [|discriminate].
-    pose proof (O_lookup st ty O) as O1. pose proof (lookup_inv st ty I) as I1. pose proof (lookup_subs st ty) as Hl.
-    destruct (lookup st ty) as [st1 n]. cbn in O1, I1, Hl.
-    destruct (nth_error (nodes st1) n) as [nd|] eqn:En; [|discriminate].
+    destruct (nth_error (nodes st) n) as [nd|] eqn:En; [|discriminate].
     destruct (holder nd) eqn:Hh; [discriminate|]. inversion E; subst. clear E.
-    eapply (O_subscribe (set_blk st1 None) s c n nd i); try reflexivity.
-    + apply O_blk, O1.
-    + apply F_blk, I1.
-    + cbn. rewrite Hl. exact Ec.
+    eapply (O_subscribe st s c n nd i); try reflexivity.
+    + exact O.
+    + exact I.
+    + exact Ec.
     + exact En.
     + exact Hh.
     + exact Ep.
